@@ -13,10 +13,45 @@ use vh::*;
 const KINDS: i64 = 8;
 const TIMEOUT_MS: u64 = 300;
 const CONFIRM_MS: u64 = 2500;
+/// in a child process (only used after a first confirmed hang) the confirmation is shorter
+const CHILD_CONFIRM_MS: u64 = 700;
+/// a source that is pulled this often after it returned None is being spun on
+const SPIN_LIMIT: usize = 20_000;
+
+/// Transparent wrapper around a real source generator that notices an endless stream of
+/// pulls after exhaustion (a hang that can be detected without waiting for the watchdog).
+struct Counted {
+    inner: TrainDataGenerator,
+    after_end: usize,
+}
+
+struct Spin;
+
+impl Iterator for Counted {
+    type Item = anyhow::Result<text_utils::data::TrainData>;
+    fn next(&mut self) -> Option<Self::Item> {
+        let r = self.inner.next();
+        if r.is_none() {
+            self.after_end += 1;
+            if self.after_end > SPIN_LIMIT {
+                std::panic::panic_any(Spin);
+            }
+        }
+        r
+    }
+    fn size_hint(&self) -> (usize, Option<usize>) {
+        self.inner.size_hint()
+    }
+}
+
+impl ExactSizeIterator for Counted {}
 
 struct C07 {
     dir: PathBuf,
     run_mode: bool,
+    /// this process was started by another c07 process after a confirmed hang
+    child: bool,
+    /// a helper thread of this process is stuck in the implementation
     hung: bool,
 }
 
@@ -69,8 +104,13 @@ fn strategy(s: i64) -> GenerationStrategy {
 
 /// build the real generators over the files and drain the combined one
 fn drain(files: &[PathBuf], strat: i64, seed: u64, cap: usize) -> Val {
-    let gens: Result<Vec<TrainDataGenerator>, _> =
-        files.iter().map(train_data_generator_from_jsonl).collect();
+    let gens: Result<Vec<TrainDataGenerator>, _> = files
+        .iter()
+        .map(|f| {
+            train_data_generator_from_jsonl(f)
+                .map(|g| Box::new(Counted { inner: g, after_end: 0 }) as TrainDataGenerator)
+        })
+        .collect();
     let Ok(gens) = gens else {
         return Val::L(vec![Val::I(-5)]);
     };
@@ -93,6 +133,15 @@ fn drain(files: &[PathBuf], strat: i64, seed: u64, cap: usize) -> Val {
 
 fn is_hang(v: &Val) -> bool {
     *v == Val::hang()
+}
+
+/// `drain`, with the spin marker of `Counted` turned into a value
+fn drain_caught(files: &[PathBuf], strat: i64, seed: u64, cap: usize) -> Val {
+    match std::panic::catch_unwind(std::panic::AssertUnwindSafe(|| drain(files, strat, seed, cap))) {
+        Ok(v) => v,
+        Err(e) if e.downcast_ref::<Spin>().is_some() => Val::L(vec![Val::I(-778), Val::I(0)]),
+        Err(_) => Val::panic(),
+    }
 }
 
 type Srcs = Vec<Vec<(i64, i64)>>;
@@ -121,7 +170,8 @@ impl C07 {
         let run_mode = std::env::args().nth(1).as_deref() == Some("run");
         let dir = PathBuf::from(format!("/tmp/c07/h{}", std::process::id()));
         let _ = std::fs::create_dir_all(&dir);
-        C07 { dir, run_mode, hung: false }
+        let child = std::env::var("C07_CHILD").is_ok();
+        C07 { dir, run_mode, child, hung: false }
     }
 
     fn write_files(&self, srcs: &Srcs) -> Option<Vec<PathBuf>> {
@@ -139,16 +189,27 @@ impl C07 {
         Some(files)
     }
 
-    /// one watched drain; a timeout is confirmed once with a longer limit so that a
-    /// loaded machine cannot produce a false hang
-    fn watched(&self, files: &[PathBuf], strat: i64, seed: u64, cap: usize) -> Val {
+    /// one watched drain -> (output, a helper thread is stuck). A timeout is confirmed once
+    /// with a longer limit so that a loaded machine cannot produce a false hang; endless
+    /// pulling of an exhausted source is reported as a hang at once (no thread stays behind).
+    fn watched(&self, files: &[PathBuf], strat: i64, seed: u64, cap: usize) -> (Val, bool) {
+        let spin = Val::L(vec![Val::I(-778), Val::I(0)]);
         let f1 = files.to_vec();
-        let v = with_timeout(TIMEOUT_MS, move || drain(&f1, strat, seed, cap));
+        let v = with_timeout(TIMEOUT_MS, move || drain_caught(&f1, strat, seed, cap));
+        if v == spin {
+            return (Val::hang(), false);
+        }
         if !is_hang(&v) {
-            return v;
+            return (v, false);
         }
         let f2 = files.to_vec();
-        with_timeout(CONFIRM_MS, move || drain(&f2, strat, seed, cap))
+        let confirm = if self.child { CHILD_CONFIRM_MS } else { CONFIRM_MS };
+        let v = with_timeout(confirm, move || drain_caught(&f2, strat, seed, cap));
+        if v == spin {
+            return (Val::hang(), true);
+        }
+        let stuck = is_hang(&v);
+        (v, stuck)
     }
 
     /// after a hang in `run` mode the remaining inputs go through a child process each,
@@ -157,6 +218,7 @@ impl C07 {
         let exe = std::env::current_exe().ok()?;
         let mut child = std::process::Command::new(exe)
             .arg("run")
+            .env("C07_CHILD", "1")
             .stdin(std::process::Stdio::piped())
             .stdout(std::process::Stdio::piped())
             .stderr(std::process::Stdio::null())
@@ -348,18 +410,18 @@ impl Prop for C07 {
         let total: usize = srcs.iter().map(|s| s.len()).sum();
         let cap = total + srcs.len() + 4;
         let tags = C07::tags(strat, &srcs);
-        let first = self.watched(&files, strat, seed, cap);
+        let (first, stuck) = self.watched(&files, strat, seed, cap);
+        self.hung |= stuck;
         if is_hang(&first) {
-            self.hung = true;
             return Some((first, tags));
         }
         let l = first.as_l()?;
         if l.first() != Some(&Val::I(1)) {
             return Some((first.clone(), tags));
         }
-        let second = self.watched(&files, strat, seed, cap);
+        let (second, stuck) = self.watched(&files, strat, seed, cap);
+        self.hung |= stuck;
         if is_hang(&second) {
-            self.hung = true;
             return Some((second, tags));
         }
         let rep = second == first;
@@ -422,7 +484,7 @@ impl Prop for C07 {
         if let Some(files) = self.write_files(&srcs) {
             let mut distinct = std::collections::HashSet::new();
             for seed in 0..16u64 {
-                distinct.insert(self.watched(&files, 2, seed, 40).to_sexp());
+                distinct.insert(self.watched(&files, 2, seed, 40).0.to_sexp());
             }
             if distinct.len() < 2 {
                 errs.push("weighted: 16 seeds gave one and the same stream".into());
